@@ -78,6 +78,9 @@ func sessionRun(c string) string {
 		return "OK"
 	}
 	sc := parseSession(c)
+	if sc.mode == "tcp" { // sequential use: the shared clock is the fixed one of all tcp sessions
+		rscp.Now = func() time.Time { return time.Unix(tcpSec, tcpNsec) }
+	}
 	return sessionLine(sc, runSession(sc))
 }
 
@@ -229,6 +232,34 @@ func init() {
 					}
 				}
 			}
+			// sequences: requests that are refused (too large in total, a mismatch, a response tag), then a small valid request
+			nseq := tierPick(tier, 40, 400)
+			for i := 0; i < nseq; i++ {
+				sc := baseSession(r)
+				pc := newPeerConn(sc.key)
+				rs := []reaction{answer(pc.reply(authReply(10), sc.useCRC()))}
+				var calls []string
+				k := 1 + r.intn(3)
+				for j := 0; j < k; j++ {
+					switch r.intn(4) {
+					case 0: // every value fits, the total does not
+						n := 33000 + r.intn(1000)
+						calls = append(calls, "send "+sxs([]rscp.Message{{Tag: 0x01000010, DataType: rscp.CString, Value: strings.Repeat("S", n)}, {Tag: 0x01000011, DataType: rscp.CString, Value: strings.Repeat("T", n)}}))
+					case 1:
+						calls = append(calls, "send "+sxs([]rscp.Message{{Tag: 0x01000010, DataType: rscp.UInt16, Value: "notanumber"}}))
+					case 2:
+						calls = append(calls, "send "+sxs([]rscp.Message{{Tag: 0x01800010, DataType: rscp.Bool, Value: true}}))
+					default: // accepted, with a reply
+						calls = append(calls, "send "+sxs(validRequests(r, 2, 200)))
+						rs = append(rs, answer(pc.reply(nonceReply(uint32(j)), sc.useCRC())))
+					}
+				}
+				calls = append(calls, "send "+sxs([]rscp.Message{{Tag: 0x01000012, DataType: rscp.CString, Value: strings.Repeat("x", r.intn(40))}}))
+				rs = append(rs, answer(pc.reply(nonceReply(99), sc.useCRC())))
+				sc.conns = [][]reaction{rs}
+				sc.calls = calls
+				emit(sc.line())
+			}
 			// whole sessions: authentication, then the request list
 			for i := 0; i < ns; i++ {
 				sc := baseSession(r)
@@ -263,62 +294,75 @@ func init() {
 					writes = append(writes, unhx(strings.Fields(e)[2]))
 				}
 			}
-			if len(rs) != 1 {
-				return "no result for the call"
+			if len(rs) != len(sc.calls) {
+				return "no result for a call"
 			}
 			if len(writes) == 0 {
 				return "" // not even the authentication was sent (cannot happen in these scripts)
 			}
 			user := writes[1:] // writes[0] is the authentication frame
-			if strings.HasPrefix(rs[0], "ERR") && len(user) == 0 {
-				return ""
+			nok := 0
+			var okCalls []string
+			for i, x := range rs {
+				if strings.HasPrefix(x, "OK") {
+					nok++
+					okCalls = append(okCalls, sc.calls[i])
+				}
 			}
-			if len(user) > 1 {
+			if len(user) > nok && len(sc.calls) == 1 && len(user) > 1 {
 				return fmt.Sprintf("the request list was transmitted in %d writes", len(user))
 			}
-			if len(user) == 0 {
-				return "the call succeeded although nothing was transmitted"
+			if len(user) < nok {
+				return "a call succeeded although nothing was transmitted for it"
 			}
-			f := user[0]
-			if len(f) == 0 || len(f)%32 != 0 {
-				return "the transmitted frame is not block aligned"
+			if len(sc.calls) > 1 && len(user) != nok {
+				return fmt.Sprintf("%d frames were transmitted for %d accepted request lists", len(user), nok)
+			}
+			if len(user) == 0 {
+				return ""
 			}
 			// decrypt with the harness's own chain: the authentication frame came first on this connection
 			dec := decrypter([]byte(sc.key), nil)
 			_ = crypt(dec, writes[0])
-			p := crypt(dec, f)
-			if binary.LittleEndian.Uint16(p) != 0xDCE3 {
-				return "the transmitted frame does not decrypt to an RSCP frame"
-			}
-			ds := int(binary.LittleEndian.Uint16(p[16:]))
-			hasCRC := p[3]&0x10 != 0
-			if hasCRC != sc.useCRC() {
-				return "the checksum flag of the transmitted frame does not follow the configuration"
-			}
-			end := 18 + ds
-			if hasCRC {
-				end += 4
-			}
-			if end > len(p) || len(p)-end >= 32 {
-				return "the frame length field does not agree with the transmitted size (or the padding is not minimal)"
-			}
-			for _, b := range p[end:] {
-				if b != 0 {
-					return "the padding is not zero"
+			for ui, f := range user {
+				if len(f) == 0 || len(f)%32 != 0 {
+					return "the transmitted frame is not block aligned"
 				}
-			}
-			if int64(binary.LittleEndian.Uint64(p[4:])) != sc.sec || int64(int32(binary.LittleEndian.Uint32(p[12:]))) != sc.nsec {
-				return "the frame does not carry the current time"
-			}
-			// decode what was sent (reference: the decoder, which C03 ties to the grammar) and compare with the requests
-			v := implFeed([]byte("k"), nil, [][]byte{crypt(encrypter([]byte("k"), nil), p)})
-			want := "ACCEPT " + strings.TrimPrefix(sc.calls[0], "send ")
-			if v[0] != want {
-				return "the transmitted frame does not decode to the requests handed to the client: " + shorten(v[0], 120)
-			}
-			if strings.HasPrefix(rs[0], "ERR") {
-				// the frame went out but the call failed later (not in these scripts unless the reply was refused)
-				return ""
+				p := crypt(dec, f)
+				if binary.LittleEndian.Uint16(p) != 0xDCE3 {
+					return "the transmitted frame does not decrypt to an RSCP frame"
+				}
+				ds := int(binary.LittleEndian.Uint16(p[16:]))
+				hasCRC := p[3]&0x10 != 0
+				if hasCRC != sc.useCRC() {
+					return "the checksum flag of the transmitted frame does not follow the configuration"
+				}
+				end := 18 + ds
+				if hasCRC {
+					end += 4
+				}
+				if end > len(p) || len(p)-end >= 32 {
+					return "the frame length field does not agree with the transmitted size (or the padding is not minimal)"
+				}
+				for _, b := range p[end:] {
+					if b != 0 {
+						return "the padding is not zero"
+					}
+				}
+				if int64(binary.LittleEndian.Uint64(p[4:])) != sc.sec || int64(int32(binary.LittleEndian.Uint32(p[12:]))) != sc.nsec {
+					return "the frame does not carry the current time"
+				}
+				// decode what was sent (reference: the decoder, which C03 ties to the grammar) and compare with the requests
+				v := implFeed([]byte("k"), nil, [][]byte{crypt(encrypter([]byte("k"), nil), p)})
+				if ui < len(okCalls) {
+					want := "ACCEPT " + strings.TrimPrefix(okCalls[ui], "send ")
+					if len(sc.calls) == 1 {
+						want = "ACCEPT " + strings.TrimPrefix(sc.calls[0], "send ")
+					}
+					if v[0] != want {
+						return "the transmitted frame does not decode to the requests handed to the client: " + shorten(v[0], 120)
+					}
+				}
 			}
 			return ""
 		},
@@ -384,8 +428,8 @@ func sizedReply(blocks int, crc bool, n uint32) []rscp.Message {
 	if payload < 0 {
 		return []rscp.Message{{Tag: rscp.Tag(0x00800000 | (n & 0xffff)), DataType: rscp.Bool, Value: true}}
 	}
-	if payload > 65528 {
-		payload = 65528
+	if payload > 65517 { // 11 + 7 + payload has to fit the 16 bit frame length
+		payload = 65517
 	}
 	s := make([]byte, payload)
 	for i := range s {
@@ -495,10 +539,18 @@ func init() {
 					mk(randomCuts(r, a), randomCuts(r, u), rbufs[i%len(rbufs)], "true")
 				}
 			}
-			if tier == "thorough" {
-				a, u := replies(2049, "true")
-				for _, rb := range rbufs {
-					mk([][]byte{a}, randomCuts(r, u), rb, "true")
+			for _, blocks := range []int{2048, 2049} {
+				a, u := replies(blocks, "true")
+				for _, rb := range []int{1, 2048, 2049} {
+					if tier != "thorough" && rb == 1 && blocks == 2048 {
+						continue
+					}
+					mk([][]byte{a}, [][]byte{u}, rb, "true")
+					mk([][]byte{a}, cut(u, len(u)/2), rb, "true")
+					if tier == "thorough" {
+						mk([][]byte{a}, cut(u, 1), rb, "true")
+						mk([][]byte{a}, randomCuts(r, u), rb, "true")
+					}
 				}
 			}
 		},
@@ -631,6 +683,45 @@ func init() {
 					}
 				}
 			}
+			// a well-formed reply frame that carries no message at all (the client goes on reading and runs into the timeout)
+			for _, crc := range []string{"true", "false"} {
+				sc := baseSession(r)
+				sc.crc = crc
+				pc := newPeerConn(sc.key)
+				sc.conns = [][]reaction{{answer(pc.reply([]rscp.Message{}, sc.useCRC())), answer(pc.reply(authReply(10), sc.useCRC()))}}
+				sc.calls = []string{nonceRequest(1), nonceRequest(1)}
+				emit(sc.line())
+				sc2 := baseSession(r)
+				sc2.crc = crc
+				pc2 := newPeerConn(sc2.key)
+				sc2.conns = [][]reaction{{answer(pc2.reply(authReply(10), sc2.useCRC())), answer(pc2.reply([]rscp.Message{}, sc2.useCRC()))}}
+				sc2.calls = []string{nonceRequest(1), nonceRequest(2)}
+				emit(sc2.line())
+			}
+			// over real TCP: the connection is lost after a successful authentication; whatever the caller does next has to
+			// authenticate again on the new connection before any user request travels
+			nt := tierPick(tier, 60, 600)
+			for i := 0; i < nt; i++ {
+				sc := tcpSession(r)
+				var nonce uint32
+				one := func() int { return 1 }
+				fail := []string{"close-before", "close-inside", "garbled", "badcrc", "malformed", "silent"}[i%6]
+				pre := r.intn(3)
+				kinds := []string{"auth-ok"}
+				for k := 0; k < pre; k++ {
+					kinds = append(kinds, "answer")
+				}
+				kinds = append(kinds, fail)
+				sc.conns = [][]reaction{buildConn(r, &sc, kinds, &nonce, one), healthyConn(r, &sc, 3, &nonce, one), healthyConn(r, &sc, 3, &nonce, one)}
+				for q := 1; q <= pre+1; q++ {
+					sc.calls = append(sc.calls, nonceRequest(uint32(q)))
+				}
+				if r.intn(3) == 0 {
+					sc.calls = append(sc.calls, "disc")
+				}
+				sc.calls = append(sc.calls, nonceRequest(uint32(pre+2)), nonceRequest(uint32(pre+3)))
+				emit(sc.line())
+			}
 		},
 		run: sessionRun,
 		pred: func(c, res string) string {
@@ -638,6 +729,20 @@ func init() {
 				return "authenticating: " + shorten(res, 200)
 			}
 			sc := parseSession(c)
+			if sc.mode == "tcp" {
+				frames, bad := framesOf(sc, res)
+				if bad {
+					return "the device cannot decrypt a frame"
+				}
+				authWant := "ACCEPT " + sxs([]rscp.Message{{Tag: rscp.RSCP_REQ_AUTHENTICATION, DataType: rscp.Container, Value: []rscp.Message{
+					{Tag: rscp.RSCP_AUTHENTICATION_USER, DataType: rscp.CString, Value: sc.user}, {Tag: rscp.RSCP_AUTHENTICATION_PASSWORD, DataType: rscp.CString, Value: sc.pass}}}})
+				for j, fs := range frames {
+					if len(fs) > 0 && fs[0] != authWant {
+						return fmt.Sprintf("the first frame on connection %d is not the authentication request: a user request travelled over a connection that was never authenticated", j)
+					}
+				}
+				return ""
+			}
 			ev, _ := splitTrace(res)
 			// classify every frame written on connection 0 by decrypting with the harness's own chain
 			dec := decrypter([]byte(sc.key), nil)
@@ -693,6 +798,7 @@ func init() {
 			timeouts := []int64{0, -1, 1000000, 50000000, sec3, 9223372036854775807}
 			mk := func(to int64, reactions []reaction, calls ...string) {
 				sc := baseSession(r)
+				sc.rbuf = []int{1, 1, 2, 64, 2047, 2048, 2049, 0, 65535}[r.intn(9)]
 				sc.ct, sc.st, sc.rt = timeouts[r.intn(len(timeouts))], to, to
 				if r.bool() {
 					sc.st = timeouts[r.intn(len(timeouts))]
@@ -984,7 +1090,11 @@ func buildConn(r *rng, sc *sessionCase, kinds []string, nonce *uint32, blocks fu
 		case "close-inside":
 			*nonce++
 			rp := pc.reply(append(nonceReply(*nonce), sizedReply(3, crc, *nonce)...), crc)
-			rs = append(rs, reaction{pieces: []piece{{data: rp[:32*(1+r.intn(2))]}}, eof: true})
+			cutAt := 32 * (1 + r.intn(2))
+			if r.intn(3) != 0 { // mostly inside a cipher block
+				cutAt = 1 + r.intn(len(rp)-1)
+			}
+			rs = append(rs, reaction{pieces: []piece{{data: rp[:cutAt]}}, eof: true})
 		case "garbled": // a garbled header followed by k blocks, possibly a well-formed stale frame
 			g := r.bytes(32)
 			g[0] = 0
@@ -997,6 +1107,8 @@ func buildConn(r *rng, sc *sessionCase, kinds []string, nonce *uint32, blocks fu
 				data = append(data, pc.reply(nonceReply(*nonce), crc)...)
 			}
 			rs = append(rs, answer(data))
+		case "empty": // a well-formed frame without any message: the client goes on waiting
+			rs = append(rs, answer(pc.reply([]rscp.Message{}, crc)))
 		case "badcrc":
 			*nonce++
 			pe := encrypter([]byte("scratch"), nil)
@@ -1107,8 +1219,13 @@ func init() {
 						nx = 20 + r.intn(tierPick(tier, 20, 80))
 					}
 					last := j == nconn-1
-					sep := r.intn(3)
+					sep := r.intn(4)
 					kinds := []string{"auth-ok"}
+					if r.intn(4) == 0 { // the peer refuses the first authentication; the retry travels on the same connection
+						kinds = []string{"auth-refuse", "auth-ok"}
+						next++
+						sc.calls = append(sc.calls, nonceRequest(next))
+					}
 					for k := 0; k < nx; k++ {
 						kinds = append(kinds, "answer")
 					}
@@ -1120,6 +1237,9 @@ func init() {
 							ncalls++
 						case 2: // the peer stays silent: the client runs into its receive timeout
 							kinds = append(kinds, "silent")
+							ncalls++
+						case 3: // the peer closes in the middle of a reply (usually inside a cipher block)
+							kinds = append(kinds, "close-inside")
 							ncalls++
 						}
 					}
@@ -1167,8 +1287,18 @@ func init() {
 			}
 			want := 0
 			for _, cn := range sc.conns {
+				pdec := decrypter([]byte(sc.key), nil)
 				for _, rc := range cn {
-					if len(rc.pieces) == 0 {
+					var all []byte
+					for _, pc := range rc.pieces {
+						all = append(all, pc.data...)
+					}
+					refused := false
+					if len(all) > 0 && len(all)%32 == 0 {
+						v := implFeed([]byte("k"), nil, [][]byte{crypt(encrypter([]byte("k"), nil), crypt(pdec, all))})
+						refused = strings.HasPrefix(v[0], "ACCEPT ((8388609 3 u8 0)")
+					}
+					if len(rc.pieces) == 0 || rc.eof || refused {
 						want++
 					}
 				}
@@ -1223,7 +1353,7 @@ func layoutHistory(r *rng, calls []byte, behaviours []string) sessionCase {
 				switch b {
 				case "answer", "late":
 					return "auth-ok"
-				case "badcrc", "malformed", "close-inside":
+				case "badcrc", "malformed", "close-inside", "empty":
 					return "garbled"
 				case "refuse":
 					return "auth-refuse"
@@ -1293,7 +1423,7 @@ func init() {
 		parallel: 16,
 		rule:     "real TCP on loopback: call sequences over {send one, send several, disconnect} x per-exchange peer behaviour {answer, answer late, stay silent, close before / inside the reply, garbled header with following blocks or a well-formed stale frame, bad CRC, malformed payload, refuse authentication}, exhaustively to depth 2 (thorough: 3, and 4 over the five most distinct behaviours) + random histories up to length 10 (thorough: 14); every request and reply carries a nonce; observable = per call OK(reply)/error and the frames each connection of the device received; non-trivial = at least one exchange does not simply succeed; distinct by case line",
 		gen: func(tier string, r *rng, emit func(string)) {
-			beh := []string{"answer", "late", "silent", "close-before", "close-inside", "garbled", "badcrc", "malformed", "refuse"}
+			beh := []string{"answer", "late", "silent", "close-before", "close-inside", "garbled", "badcrc", "malformed", "refuse", "empty"}
 			var rec func(prefix []string, depth int)
 			rec = func(prefix []string, depth int) {
 				if len(prefix) > 0 {
@@ -1448,7 +1578,7 @@ func init() {
 					all = append(all, pc.data...)
 				}
 				v1 := implFeed([]byte("k"), nil, [][]byte{crypt(encrypter([]byte("k"), nil), crypt(pdec, all))})
-				if !strings.HasPrefix(v1[0], "ACCEPT") {
+				if !strings.HasPrefix(v1[0], "ACCEPT ((") { // a reply with at least one message
 					continue
 				}
 				if len(frames[j]) < 2 {
@@ -1489,6 +1619,7 @@ func init() {
 		nontrivial: func(c, res string) bool { return strings.Contains(res, "ERR") || strings.Contains(c, "@") },
 	}
 	props["C06"].parallel = 16
+	props["C09"].parallel = 1
 }
 
 // ------------------------------------------------------------------ C17: independent clients and codec calls run concurrently
@@ -1527,11 +1658,33 @@ func init() {
 						var nonce uint32
 						blocks := func() int { return 1 + r.intn(3) }
 						nx := 1 + r.intn(4)
-						sc.conns = [][]reaction{healthyConn(r, &sc, nx, &nonce, blocks), healthyConn(r, &sc, 2, &nonce, blocks)}
-						for q := 1; q <= nx; q++ {
-							sc.calls = append(sc.calls, nonceRequest(uint32(q)))
+						if j%3 == 0 { // this client first meets a protocol error (a garbled or malformed reply), then carries on
+							bad := []string{"garbled", "badcrc", "malformed"}[r.intn(3)]
+							sc.conns = [][]reaction{buildConn(r, &sc, []string{"auth-ok", bad}, &nonce, blocks), healthyConn(r, &sc, nx, &nonce, func() int { return 3 + r.intn(6) })}
+							sc.calls = append(sc.calls, nonceRequest(100))
+							for q := 1; q <= nx; q++ {
+								sc.calls = append(sc.calls, nonceRequest(uint32(q)))
+							}
+						} else {
+							big := func() int { return 2 + r.intn(8) }
+							sc.conns = [][]reaction{healthyConn(r, &sc, nx, &nonce, big), healthyConn(r, &sc, 2, &nonce, big)}
+							// multi-block replies arrive block by block
+							for ci := range sc.conns {
+								for ri := range sc.conns[ci] {
+									var ps []piece
+									for _, pc := range sc.conns[ci][ri].pieces {
+										for o := 0; o < len(pc.data); o += 32 {
+											ps = append(ps, piece{data: pc.data[o : o+32], delay: 200000})
+										}
+									}
+									sc.conns[ci][ri].pieces = ps
+								}
+							}
+							for q := 1; q <= nx; q++ {
+								sc.calls = append(sc.calls, nonceRequest(uint32(q)))
+							}
+							sc.calls = append(sc.calls, "disc", nonceRequest(uint32(nx+1)))
 						}
-						sc.calls = append(sc.calls, "disc", nonceRequest(uint32(nx+1)))
 						subs = append(subs, sc.line())
 					} else {
 						ms := genMsgs(r, 3, 200, false)
